@@ -159,7 +159,9 @@ def showTrace (tr : List Msg) : String :=
   if toks.length ≤ 200 then String.intercalate " " toks
   else s!"#{toks.length}:{toks.foldl (fun h t => fnvStr (fnvByte h 32) t) fnvInit}"
 
-def parseReply (s : String) : Option Reply :=
+def parseReply (s0 : String) : Option Reply :=
+  -- a leading `~` (the bus takes over a second to answer) is not an event of the model: time is not a reply
+  let s := if s0.startsWith "~" then (s0.drop 1).toString else s0
   if s == "none" then some (.ok none)
   else if s == "bus" then some .busError
   else (parseMsg s).map (fun m => .ok (some m))
@@ -191,10 +193,30 @@ def ctrlProg (op : String) (t : SignType) (a : UInt16) (items : List (List UInt8
   else if op == "off" then some (.unit (shutDown a))
   else none
 
+/-- A reply script in which `none` stands for "the bus echoes the message it was just sent" (a half-duplex line
+    that loops the transmitter back): each mark is replaced by the message the program sends at that point. -/
+def resolveEcho {α : Type} : Prog α → List (Option Reply) → List Reply
+  | .send m k, none :: rest => .ok (some m) :: resolveEcho (k (some m)) rest
+  | .send _ k, some (.ok r) :: rest => .ok r :: resolveEcho (k r) rest
+  | _, rest => rest.map (·.getD .busError)      -- the run ends at or before this point
+
+def parseReplyE (s : String) : Option (Option Reply) :=
+  if s == "echo" then some none else (parseReply s).map some
+
 def runCtrl (p : AnyProg) (script : List Reply) : String :=
   match p with
   | .unit p => let (tr, o) := p.run script; showTrace (tr.map Prod.fst) ++ " => " ++ showOutcome (fun _ => "ok") o
   | .style p => let (tr, o) := p.run script; showTrace (tr.map Prod.fst) ++ " => " ++ showOutcome showStyle o
+
+/-- `runCtrl` for one of several operations on one controller object: also returns how many replies were used.
+    `panicAt`: positions of the script where the bus unwinds instead of returning an error; to the controller
+    (which keeps nothing between operations) that is an operation that ended there, reported as PANIC. -/
+def runCtrlN (p : AnyProg) (script : List Reply) (panicAt : List Nat) : String × Nat :=
+  let (n, tr, o) : Nat × String × String := match p with
+    | .unit p => let (tr, o) := p.run script; (tr.length, showTrace (tr.map Prod.fst), showOutcome (fun _ => "ok") o)
+    | .style p => let (tr, o) := p.run script; (tr.length, showTrace (tr.map Prod.fst), showOutcome showStyle o)
+  let o := if o == "bus" && panicAt.contains (n - 1) then "PANIC" else o
+  (tr ++ " => " ++ o, n)
 
 def runOnBus (p : AnyProg) (bus : List VSign) : String × List VSign :=
   match p with
@@ -239,13 +261,15 @@ def parseREvents (toks : List String) : Option (List REvent) := do
     else if t == "e" then some [REvent.error]
     else if t == "t" then some [REvent.error]   -- a read timeout is an I/O error like any other
     else if t == "z" then some [REvent.eof]
+    else if t == "n" then some [REvent.interrupted]   -- the reader used the codec itself, then "interrupted"
     else match t.splitOn ":" with
       | ["d", hx] => (parseHex hx).map (·.map REvent.byte)
       | _ => none
   pure parts.flatten
 
 def parseWEvents (toks : List String) : Option (List WEvent) :=
-  toks.mapM fun t =>
+  -- `F` (the port's flush() fails from now on) is not an event of the model: the library never flushes
+  (toks.filter (· != "F")).mapM fun t =>
     if t == "i" then some WEvent.interrupted
     else if t == "e" then some WEvent.error
     else match t.splitOn ":" with
@@ -366,8 +390,11 @@ def portCase (kind : String) (prior : PortSettings) (fail : FailAt) : Option Str
     else if kind == "odk" then some (odkTryNew d fail)
     else match kind.splitOn ":" with
       | ["cfg", ms] => do pure (configurePort d (← ms.toNat?) fail)
+      | ["cfgn", ns] => do pure (configurePort d (← ns.toNat?) fail)   -- the same pass-through, counted in nanoseconds
       | _ => none
-  let t := match d'.timeout with | some ms => toString ms | none => "-"
+  let t := match d'.timeout with
+    | some ms => if kind.startsWith "cfgn:" then toString ms ++ "ns" else toString ms
+    | none => "-"
   pure s!"{if ok then "ok" else "err"} {showSettings d'.settings} {t}"
 
 def e2eSerial (signs : String) (rest : List String) : Option String := do
@@ -456,12 +483,71 @@ def handle (line : String) : String :=
       | .ok (.ok t) => pure s!"ok {typeIdx t}"
       | .ok (.error (.wrongLen e a)) => pure s!"err wronglen {e} {a}"
       | .ok (.error .unknownConfig) => pure "err unknown"
+  | ["pagefromlen", w, h, n] => orBad do
+      -- a buffer too large to build as a list: the verdict of `Page::from_bytes` by length (`Page.fromBytes_verdict`)
+      match Page.fromBytesLenErr (← w.toNat?) (← h.toNat?) (← n.toNat?) with
+      | none => pure "ok"
+      | some (.wrongLen w h e a) => pure s!"err wronglen {w} {h} {e} {a}"
+  | ["typefromlen", n, _known] => orBad do
+      -- a string too long to build as a list (`SignType.fromBytes_wrongLen`)
+      match SignType.fromBytesLenErr (← n.toNat?) with
+      | some (.wrongLen e a) => pure s!"err wronglen {e} {a}"
+      | _ => pure "bad-op"
+  | ["soak", "enc", count] => orBad do
+      -- the codec is a function: encoding the same frame again and again changes nothing (521 characters each time)
+      pure s!"ok {(← count.toNat?) * (enc ⟨0x0102, 0, (List.range 255).map UInt8.ofNat⟩).length}"
+  | ["datagrow", _way] => "fits"   -- the model's data block has no mutable access: it stays what `Data.tryNew` admitted
+  | ["datafrom", n] => orBad do
+      -- whatever conversions into a data block the library offers, none yields more than 255 bytes
+      -- (`Data.tryNew` is the only constructor of the model); the implementation side probes which exist
+      let _ ← n.toNat?
+      pure "fits"
+  | ["bigpage", w, h, x, y] => orBad do
+      -- a page too large to build as a list: where `set_pixel` writes is `Page.indices`, which reads the
+      -- dimensions only (the bytes of this page value are never looked at)
+      let p : Page := ⟨← w.toNat?, ← h.toNat?, []⟩
+      match p.indices (← x.toNat?) (← y.toNat?) with
+      | .error _ => pure "PANIC"
+      | .ok (i, bit) => pure s!"{i}:{toHex [bitMask bit]} g=1"
   | "vbus" :: signs :: msgs => orBad do
-      pure (walk (← parseSigns signs) (← msgs.mapM parseMsg))
+      -- `@i:MSG` tokens first: sign i is stepped on its own before the bus exists; `#rebuild`: a new bus object
+      -- from the same signs — the model's bus is nothing but the list of its signs, so this is a no-op here
+      let pre := msgs.takeWhile (·.startsWith "@")
+      let rest := (msgs.dropWhile (·.startsWith "@")).filter (· != "#rebuild")
+      let mut bus ← parseSigns signs
+      for t in pre do
+        match (t.drop 1).toString.splitOn ":" with
+        | [i, m] =>
+          let i ← i.toNat?
+          let m ← parseMsg m
+          match bus[i]? with
+          | none => none
+          | some sg =>
+            match vstep sg m with
+            | .error _ => return "PANIC"
+            | .ok (sg', _) => bus := bus.set i sg'
+        | _ => none
+      pure (walk bus (← rest.mapM parseMsg))
   | "ctrl" :: op :: t :: a :: items :: "|" :: replies => orBad do
-      let script ← replies.mapM parseReply
-      let p ← ctrlProg op (← parseType t) (← parseU16 a) (← parseItems items) (script.length + 1)
+      let marks ← replies.mapM parseReplyE
+      let p ← ctrlProg op (← parseType t) (← parseU16 a) (← parseItems items) (marks.length + 1)
+      let script := match p with
+        | .unit q => resolveEcho q marks
+        | .style q => resolveEcho q marks
       pure (runCtrl p script)
+  | "ctrl2" :: op1 :: op2 :: t :: a :: items :: "|" :: replies => orBad do
+      -- two operations on ONE controller object, one script: the second starts where the first stopped
+      let panicAt := (List.range replies.length).filter (fun i => replies[i]? == some "panic")
+      let script ← (replies.map (fun r => if r == "panic" then "bus" else r)).mapM parseReply
+      let ty ← parseType t
+      let a ← parseU16 a
+      let its ← parseItems items
+      let p1 ← ctrlProg op1 ty a its (script.length + 1)
+      let (s1, n1) := runCtrlN p1 script panicAt
+      let rest := script.drop n1
+      let p2 ← ctrlProg op2 ty a its (rest.length + 1)
+      let (s2, _) := runCtrlN p2 rest (panicAt.filterMap (fun i => if i ≥ n1 then some (i - n1) else none))
+      pure (s1 ++ " ;; " ++ s2)
   | "e2e" :: "direct" :: signs :: rest => orBad (e2eDirect signs rest)
   | "e2e" :: "serial" :: signs :: rest => orBad (e2eSerial signs rest)
   | "io" :: "reads" :: n :: evs => orBad do pure (ioReads (← n.toNat?) (← parseREvents evs))
@@ -479,7 +565,9 @@ def handle (line : String) : String :=
       | _ => none
   | "serialm" :: rest => orBad do
       match splitBar rest with
-      | [ms, rd, wr] => pure (serialMultiCase false (← ms.mapM parseMsg) (← parseREvents rd) (← parseWEvents wr))
+      | [ms, rd, wr] =>
+        let r := serialMultiCase false (← ms.mapM parseMsg) (← parseREvents rd) (← parseWEvents wr)
+        pure (if wr.contains "F" then r ++ " [flush-fails]" else r)
       | _ => none
   | "serialmts" :: _wms :: _rms :: rest => orBad do
       match splitBar rest with
@@ -487,7 +575,9 @@ def handle (line : String) : String :=
       | _ => none
   | "serialmt" :: rest => orBad do
       match splitBar rest with
-      | [ms, rd, wr] => pure (serialMultiCase true (← ms.mapM parseMsg) (← parseREvents rd) (← parseWEvents wr))
+      | [ms, rd, wr] =>
+        let r := serialMultiCase true (← ms.mapM parseMsg) (← parseREvents rd) (← parseWEvents wr)
+        pure (if wr.contains "F" then r ++ " [flush-fails]" else r)
       | _ => none
   | "serialts" :: _wms :: _rms :: m :: "|" :: rest => orBad do
       -- slow port: the latencies are inside the write / read calls; the model's event sequence
